@@ -89,11 +89,36 @@ def gen_cases(pid, tier, rng):
             for ps in (chs if w in ('D', 'H') else chs[:2]):
                 for sc in scheds:
                     cases.append((w, ps, sc))
+        # the same text handed over char by char through Formatter::write_char (what `char`, the quotes of `{:?}` and padding do)
+        if chars and (len(chars) <= 2 or rng.random() < 0.15):
+            for w in wrappers:
+                if w == 'FB': continue
+                for sc in [[]] + rng.sample(scheds, min(len(scheds), 3)):
+                    cases.append((w + 'c', [text], sc))
+    # renderings and buffers beyond 1 KiB / 4 KiB / 8 KiB, with special characters in them, alone and one after another
+    # (scratch buffers, piecewise writes); a small value right after a large one
+    big = []
+    for n in ([1100, 4097, 9000] if tier == "quick" else [1023, 1025, 2000, 4095, 4097, 8193, 20000]):
+        big.append([rng.choice(ALPHA + ['b', 'c', ' ']) for _ in range(n)])
+        big.append(list("<tr>&amp;") * (n // 9 + 1))
+    for chars in big:
+        text = ''.join(chars)
+        for w in wrappers:
+            for ps in ([text], [text[:7], text[7:3000], text[3000:]]):
+                for sc in ([], ['a1000', 'i', 'a5000'], ['a4096', 'a1', 'i']):
+                    cases.append((w, ps, sc))
+            cases.append((w, ['<'], []))
     return cases
 
 def line_of(case):
     w, ps, sc = case
     return "%s %s %s" % (w, ",".join(hexs(p.encode()) for p in ps) if ps else "-", sched_str(sc))
+
+def model_line_of(case):
+    """Model/Io.v knows pieces, not how the Display impl hands them over: a value written char by char is the value whose pieces are its chars"""
+    w, ps, sc = case
+    if w.endswith('c'): return line_of((w[:-1], [ch for p in ps for ch in p], sc))
+    return line_of(case)
 
 def expected_text(case):
     return ''.join(case[1])
@@ -102,6 +127,7 @@ def oracle(case, out, full):
     """impl-side statement of C02/C06 on one result; `full` = what the same value renders on an accept-all sink.
     Returns None or a description of the failure."""
     w, ps, sc = case
+    w = w.rstrip('c')
     text = expected_text(case).encode()
     f = out.split(' ')
     if f[0] == 'PANIC' or len(f) < 2: return "panic / malformed result " + out
@@ -186,7 +212,7 @@ def run(pid, tier):
     cases = gen_cases(pid, tier, chk.rng)
     lines = [line_of(c) for c in cases]
     impl = run_impl("io", lines)
-    model = run_model("io", lines)
+    model = run_model("io", [model_line_of(c) for c in cases])
     # full renderings on the accept-all sink, from the implementation itself
     base = {}
     for c in cases:
@@ -209,7 +235,7 @@ def run(pid, tier):
         if why: oracle_fail.append((c, a, why))
     for c in cases[:3] + cases[len(cases)//2:len(cases)//2+2]:
         chk.sample(dict(case=line_of(c), text=expected_text(c)))
-    chk.cov["rule"] = ("strings over {<,>,&,\",',a,e-acute,euro,U+1D11E} exhaustive to length %d (thorough: plus a sample of length 5-6) plus random to 4 KiB; all chunkings of short strings into write_str pieces; "
+    chk.cov["rule"] = ("strings over {<,>,&,\",',a,e-acute,euro,U+1D11E} exhaustive to length %d (thorough: plus a sample of length 5-6) plus random to 4 KiB; all chunkings of short strings into write_str pieces, and the text handed over char by char through write_char; renderings of 1-9 KiB (thorough: to 20 KiB) with special characters through every wrapper; "
                        "schedules exhaustive over {a1,a2,a7,i,f7,a0} to length %d, a failure and a zero-accept at every offset, random long ones; wrappers %s. "
                        "non-trivial = text has a special byte and (several pieces or a non-empty schedule); distinct by case line") % (
                         3 if tier == "quick" else 4, 3 if tier == "quick" or pid != "C02" else 4, "D" if pid == "C02" else "H,B,HB,BB,D")
